@@ -145,6 +145,17 @@ def _judge(ctx, holder, form, i, darg, dkey, P, B):
             if abs(lat) == 90.0:
                 ctx.track(f'pole.d{cname[0]}_nT', d)
             ctx.expect(d <= TOL, f'{site0} {cname} = degree-12 synthesis of the shipped COF', key, obs[c], exp[c], TOL)
+        # the same numbers through the two read-out properties of the (re-used) object: they describe the LAST evaluation
+        try:
+            el = w.magnetic_elements
+            gv = np.asarray(w.geodetic_vector, float)
+            pv = np.array([float(el['X']), float(el['Y']), float(el['Z'])])
+        except Exception as ex:
+            ctx.tick()
+            ctx.fail(f'{site0}: magnetic_elements / geodetic_vector can be read', key, f'{type(ex).__name__}: {ex}'[:120], exp)
+        else:
+            ctx.expect(float(np.abs(pv - exp).max()) <= TOL, f'{site0}: magnetic_elements X, Y, Z = degree-12 synthesis (object re-used for many evaluations)', key, pv, exp, TOL)
+            ctx.expect(gv.shape == (3,) and float(np.abs(gv - exp).max()) <= TOL, f'{site0}: geodetic_vector = degree-12 synthesis (object re-used for many evaluations)', key, gv, exp, TOL)
         ctx.seen((form, i if i is not None else dkey, lat, lon, hk))
         _classes(ctx, form, i, lat, lon, hk, name)
         ctx.outcome(tuple(round(float(x), 3) if x is not None else None for x in obs))
